@@ -116,6 +116,8 @@ pub fn cmd_reader() {
         let mut data: Vec<u8> = given.unwrap_or_else(|| (0..prefix).map(|i| (i as u8).wrapping_mul(37).wrapping_add(11)).collect());
         data.extend_from_slice(&bytes);
         if chain {
+            // (two further copies: a decode that took too much of the stream still finds a frame's worth of bytes)
+            data.extend_from_slice(&bytes);
             data.extend_from_slice(&bytes);
         }
         let mut rd = Scripted::new(data, script.clone());
@@ -134,7 +136,14 @@ pub fn cmd_reader() {
             if rd.pos != prefix + flen {
                 // (the checksum the first decode reported stays in the record: it is judged on its own)
                 let crc = o.get("crc").cloned().unwrap_or(json!(-1));
-                o = json!({"ok": 4, "consumed": rd.pos.saturating_sub(prefix), "crc": crc});
+                let consumed = rd.pos.saturating_sub(prefix);
+                // what a consumer of the stream gets next: the following decode, from wherever the reader now stands -
+                // it takes it for the second frame, and the checksum reported with it for that frame's
+                let r2 = catch_unwind(AssertUnwindSafe(|| Frame::from_reader(&mut rd)));
+                let (o2, _) = proj(r2);
+                let next_ok = o2.get("ok").and_then(Value::as_i64).unwrap_or(0);
+                let next_crc = if next_ok == 1 { o2.get("crc").cloned().unwrap_or(json!(-1)) } else { json!(-1) };
+                o = json!({"ok": 4, "consumed": consumed, "crc": crc, "next_ok": next_ok, "next_crc": next_crc});
                 outcome = "misaligned";
             } else {
                 let r2 = catch_unwind(AssertUnwindSafe(|| Frame::from_reader(&mut rd)));
